@@ -318,3 +318,22 @@ def c05(ctx, api):
             st, summ)
     return acc.result(RULE_PINNED + '; results needing more than 34 digits admit exactly two values (truncation and truncation + 1 ulp) and count as unpinned',
                       extra={'model_checks': ['SmallLaws', 'BigLaws (thorough)', 'Commutative', 'CmpAntisymmetric']})
+
+
+# --------------------------------------------------------------------- C06
+@plan('C06')
+def c06(ctx, api):
+    acc = Acc()
+    thorough = ctx['tier'] == 'thorough'
+    consts = {'Emit': 'TRUE', 'Prop': '"C06"', 'MaxCalls': 3, 'MaxDocs': 4, 'NTexts': 8 if thorough else 6}
+    text = cfg(constants=consts, extra='PROPERTIES\n  Immutable')
+    st, summ = api['run_tlc_to_harness'](ctx, 'api-bfs', 'API', text, timeout=3000)
+    acc.add('API.tla: every history of <= 3 calls over %d texts x 3 documents (+ fed-back results)' % consts['NTexts'], st, summ)
+    sim = {'num': 40 if thorough else 8, 'depth': 9, 'seed': ctx['seed']}
+    consts = {'Emit': 'TRUE', 'Prop': '"C06"', 'MaxCalls': 8, 'MaxDocs': 6, 'NTexts': 16}
+    st, summ = api['run_tlc_to_harness'](ctx, 'api-sim', 'API', cfg(constants=consts), simulate=sim, timeout=1500)
+    acc.add('API.tla -simulate: histories of <= 8 calls over 16 texts', st, summ, exhaustive=False)
+    return acc.result('cases are the reachable states (histories) of API.tla; each is replayed call by call into the real API with deep '
+                      'snapshots of all documents (including spare slice capacity) and all earlier results; a history is non-trivial '
+                      'when every step has a single admissible outcome',
+                      extra={'model_checks': ['Immutable (action property)', 'Pure', 'StaticAtCompile', 'StaticIgnoresDoc', 'Closed']})
